@@ -47,6 +47,7 @@ func objOps(thorough bool) []objOp {
 				y := y
 				add(x+"="+y, false, func(K float64) []*model.N { return st(model.Asg(x, id(y))) })
 				add(x+".k1="+y, false, func(K float64) []*model.N { return st(model.PAsg(id(x), "k1", id(y))) })
+				add(x+".k2="+y, false, func(K float64) []*model.N { return st(model.PAsg(id(x), "k2", id(y))) })
 			}
 		}
 		for _, k := range objKeys {
@@ -55,6 +56,12 @@ func objOps(thorough bool) []objOp {
 			add(model.BiDelete+"("+x+","+k+")", false, func(K float64) []*model.N { return st(model.CallN(model.BiDelete, id(x), model.Str(k))) })
 			add("read "+x+"."+k, false, func(K float64) []*model.N { return []*model.N{model.Print(model.Prop(id(x), k))} })
 		}
+		add(x+".k1={}; "+x+".k3="+x+".k1", false, func(K float64) []*model.N {
+			return []*model.N{model.ExprS(model.PAsg(id(x), "k1", model.Obj(nil, nil))), model.ExprS(model.PAsg(id(x), "k3", model.Prop(id(x), "k1")))}
+		})
+		add(x+"={canonically equivalent keys}", false, func(K float64) []*model.N {
+			return st(model.Asg(x, model.Obj([]string{"k\u09DF", "k1", "k\u09AF\u09BC"}, []*model.N{num(K), num(K + 1), num(K + 2)})))
+		})
 		add(x+".k1={k2:K}", false, func(K float64) []*model.N {
 			return st(model.PAsg(id(x), "k1", model.Obj([]string{"k2"}, []*model.N{num(K)})))
 		})
@@ -114,6 +121,8 @@ func objProgram(hist []int, ops []objOp) []*model.N {
 	for _, v := range objVars {
 		prog = append(prog, model.Print(model.Id(v)))
 	}
+	// the same object reached several times from one printed value shows all its properties each time
+	prog = append(prog, model.Print(model.Arr(model.Id("o"), model.Id("r"), model.Id("o"))))
 	for _, v := range objVars {
 		prog = append(prog, objListing(v)...)
 	}
@@ -156,7 +165,12 @@ func compareObjOutput(exp, got string) string {
 				for p := 2; p+1 < len(s)-1; p += 2 {
 					out = append(out, kv{s[p], s[p+1]})
 				}
-				sort.Slice(out, func(a, b int) bool { return out[a].k < out[b].k })
+				sort.Slice(out, func(a, b int) bool {
+					if out[a].k != out[b].k {
+						return out[a].k < out[b].k
+					}
+					return out[a].v < out[b].v
+				})
 				return out
 			}
 			ep, gp := collect(seg), collect(gseg)
